@@ -25,13 +25,29 @@
          shutdown, an event for the writer's descriptor on every full -> non-full transition; events stay pending until
          the selector of the descriptor collects them
      K4  the kernel may report additional (spurious) events at any time (action `Spurious`)
+     K5  a LISTENER f has a backlog `kq (Kn f)`: a FIFO of connections (named by the connecting descriptor) that are
+         established and not yet accepted.  Non-blocking accept: empty -> EAGAIN, else the head is removed and returned.
+         A readable event for f on every empty -> non-empty transition of the backlog.
+     K6  a CONNECTING socket f has a state `kst (Kn f)`: CNone (fresh) | CProg (in progress) | CEst (established, not
+         yet reported) | CRef e (failed with error e, not yet reported) | CConn (connected).  Non-blocking connect(f, L):
+           CNone: the kernel chooses (parameter m of the step): EINPROGRESS -> CProg | completes at once (unix sockets:
+                  the connection is in the backlog of L when the call returns; event for L if it was empty) -> CConn |
+                  fails at once with an error e (ECONNREFUSED; EAGAIN of a unix socket whose listener's backlog is full)
+           CProg: EALREADY;   CEst: 0 -> CConn;   CRef e: e (the pending SO_ERROR, cleared) -> CNone;   CConn: EISCONN
+         Environment: `Establish f` (CProg -> CEst) and `Refuse f e` (CProg -> CRef e), each with a writable / error event
+         for f; `Deliver f` (the server side of an established connection enters the backlog of its listener; event for
+         the listener if the backlog was empty).  may reads the outcome by calling connect again (EISCONN / 0 / the
+         error), not through getsockopt(SO_ERROR): the answers are the same.
 
    Caller (actor a), control point = the access its next step executes:
-     Idle    outside; `Start` begins read/receive/accept/peek (Rd) or write/send/connect (Wr) on descriptor f with an
-             optional timeout (already rounded by AtomicDuration, C08); `cn` = the event source registers cancel data
-             (read, receive, accept, connect, peek do; write and send do not); one operation at a time per descriptor
-             (`busy`; for streams enforced by `&mut self`)
-     PReset  IoData::reset: io_flag.swap(0)
+     Idle    outside; `Start` begins read/receive/peek (Rd), write/send (Wr), accept (Ac: {Tcp,Unix}Listener::accept +
+             net/{tcp,unix}_listener_accept.rs) or connect (Co: {Tcp,Unix}Stream::connect + net/{tcp,unix}_stream_connect.rs;
+             `n` = the listener's descriptor) on descriptor f with an optional timeout (already rounded by
+             AtomicDuration, C08; accept never arms one, UnixStream::connect always 2 s, TcpStream::connect_timeout the
+             given one); `cn` = the event source registers cancel data (read, receive, accept, connect, peek do; write
+             and send do not); one operation at a time per descriptor (`busy`; for streams enforced by `&mut self`)
+     PReset  IoData::reset: io_flag.swap(0)            (not for connect: `check_connected` is called on the fresh
+                                                        registration, the operation starts at PTry)
      PTry    first non-blocking syscall                 done -> Idle | EAGAIN -> PYield
      PYield  yield_with: cancel bit set -> Cancel panic (Dead) | context switch: Susp, a fresh kernel half (subscriber)
      Susp    suspended until `Resume` (needs the wake token `aawake`)
@@ -80,14 +96,16 @@
 From Coq Require Import List Arith Bool Lia.
 Import ListNotations.
 
-Inductive kind := Rd | Wr.
+Inductive kind := Rd | Wr | Ac | Co.
 Inductive pc := Idle | PReset | PTry | PYield | Susp | RBack | RClr | LRes | LClr | LSys | LChk | Dead.
 Inductive spc := SArm | SStore | SChk | SFast | SFastT (c : nat) | SSetIo | SCan | SCan2 | SCan3 (f : nat) | SCan4 (f c : nat) | SDone.
 Inductive selst := SIdle | SEv (f : nat) | SEvT (f c : nat) | THnd (f e : nat) | THnd2 (f e : nat).
 Inductive cnst := CnIdle | Cn1 | Cn2 (f : nat) | Cn3 (f c : nat).
 Inductive tst := TFree | TArmed | TGone.
 Inductive home := HNone | HSub (k : nat) | HSlot (f : nat) | HSel (g : nat) | HFast (k : nat) | HCan (a : nat) | HKCan (k : nat) | HAwake.
-Inductive res := ROk (l : list nat) | RWrote (n : nat) | REof | RPipe | RTimedOut | RCanceled.
+Inductive res := ROk (l : list nat) | RWrote (n : nat) | REof | RPipe | RTimedOut | RCanceled
+               | RAcc (c : nat) | RConn | RErr (e : nat).
+Inductive cstate := CNone | CProg | CEst | CRef (e : nat) | CConn.
 
 Record actor := { apc : pc; afd : nat; akind : kind; acn : bool; ato : option nat; adat : list nat; an : nat;
                   apara : bool; acanc : bool; acio : option nat; aawake : bool;
@@ -95,11 +113,15 @@ Record actor := { apc : pc; afd : nat; akind : kind; acn : bool; ato : option na
 Record sub := { spc_ : spc; sa : nat; sfd : nat; sto : option nat; scn : bool }.
 Record tent := { tstate : tst; tdl : nat; tev : option nat; tmin : nat }.
 Record pipe := { buf : list nat; wshut : bool; sent : list nat; rcvd : list nat; eof : bool }.
+(* K5 / K6: what the kernel holds for descriptor f as a listener (kq; ghost: kest = every connection that ever entered the
+   backlog, kacc = every connection accept returned) and as a connecting socket (kst, ktgt = the listener, kdeliv =
+   the server side is in the listener's backlog or was accepted) *)
+Record ksock := { kq : list nat; kst : cstate; ktgt : nat; kdeliv : bool; kest : list nat; kacc : list nat }.
 
 Record st := { now : nat; P : nat -> pipe; pend : nat -> bool; flag : nat -> bool; co : nat -> option nat;
                tmr : nat -> option nat; busy : nat -> option nat; closed : nat -> bool;
                A : nat -> actor; Sb : nat -> sub; nexts : nat; T : nat -> tent; nextt : nat;
-               Sel : nat -> selst; Cn : nat -> cnst }.
+               Sel : nat -> selst; Cn : nat -> cnst; Kn : nat -> ksock }.
 
 Definition upd {X} (f : nat -> X) i v := fun j => if Nat.eqb j i then v else f j.
 
@@ -121,7 +143,10 @@ Inductive action :=
 | Tick (d : nat)
 | Shutdown (f : nat)
 | Spurious (f : nat)
-| Close (f : nat).
+| Close (f : nat)
+| Establish (f : nat)             (* K6: the connection attempt of f succeeded (writable event) *)
+| Refuse (f e : nat)              (* K6: it failed with error e (error event) *)
+| Deliver (f : nat).              (* K5: the server side of f's connection enters the backlog of its listener *)
 
 (* ---- record updates ------------------------------------------------------------------------------------- *)
 Definition mkA pc' fd' k' cn' to' d' n' pa' ca' ci' aw' tc' h' l' :=
@@ -142,26 +167,35 @@ Definition a_cio_pc (x : actor) c p := mkA p (afd x) (akind x) (acn x) (ato x) (
 Definition s_pc (x : sub) p := {| spc_ := p; sa := sa x; sfd := sfd x; sto := sto x; scn := scn x |}.
 Definition t_null (x : tent) (unl : bool) :=
   {| tstate := if unl then TGone else tstate x; tdl := tdl x; tev := None; tmin := tmin x |}.
+Definition k_st (x : ksock) (c : cstate) := {| kq := kq x; kst := c; ktgt := ktgt x; kdeliv := kdeliv x; kest := kest x; kacc := kacc x |}.
+Definition k_start (x : ksock) (c : cstate) (l : nat) (d : bool) :=
+  {| kq := kq x; kst := c; ktgt := l; kdeliv := d; kest := kest x; kacc := kacc x |}.
+Definition k_deliv (x : ksock) := {| kq := kq x; kst := kst x; ktgt := ktgt x; kdeliv := true; kest := kest x; kacc := kacc x |}.
+Definition k_push (x : ksock) (c : nat) :=
+  {| kq := kq x ++ [c]; kst := kst x; ktgt := ktgt x; kdeliv := kdeliv x; kest := kest x ++ [c]; kacc := kacc x |}.
+Definition k_pop (x : ksock) (c : nat) (q : list nat) :=
+  {| kq := q; kst := kst x; ktgt := ktgt x; kdeliv := kdeliv x; kest := kest x; kacc := kacc x ++ [c] |}.
 Definition t_pop (x : tent) := {| tstate := TGone; tdl := tdl x; tev := tev x; tmin := tmin x |}.
 
-Definition mk n p pe fl c tm bu cl a s ns t nt se cn :=
+Definition mk n p pe fl c tm bu cl a s ns t nt se cn kn :=
   {| now := n; P := p; pend := pe; flag := fl; co := c; tmr := tm; busy := bu; closed := cl; A := a; Sb := s; nexts := ns;
-     T := t; nextt := nt; Sel := se; Cn := cn |}.
-Definition wnow s v := mk v (P s) (pend s) (flag s) (co s) (tmr s) (busy s) (closed s) (A s) (Sb s) (nexts s) (T s) (nextt s) (Sel s) (Cn s).
-Definition wP s v := mk (now s) v (pend s) (flag s) (co s) (tmr s) (busy s) (closed s) (A s) (Sb s) (nexts s) (T s) (nextt s) (Sel s) (Cn s).
-Definition wpend s v := mk (now s) (P s) v (flag s) (co s) (tmr s) (busy s) (closed s) (A s) (Sb s) (nexts s) (T s) (nextt s) (Sel s) (Cn s).
-Definition wflag s v := mk (now s) (P s) (pend s) v (co s) (tmr s) (busy s) (closed s) (A s) (Sb s) (nexts s) (T s) (nextt s) (Sel s) (Cn s).
-Definition wco s v := mk (now s) (P s) (pend s) (flag s) v (tmr s) (busy s) (closed s) (A s) (Sb s) (nexts s) (T s) (nextt s) (Sel s) (Cn s).
-Definition wtmr s v := mk (now s) (P s) (pend s) (flag s) (co s) v (busy s) (closed s) (A s) (Sb s) (nexts s) (T s) (nextt s) (Sel s) (Cn s).
-Definition wbusy s v := mk (now s) (P s) (pend s) (flag s) (co s) (tmr s) v (closed s) (A s) (Sb s) (nexts s) (T s) (nextt s) (Sel s) (Cn s).
-Definition wclosed s v := mk (now s) (P s) (pend s) (flag s) (co s) (tmr s) (busy s) v (A s) (Sb s) (nexts s) (T s) (nextt s) (Sel s) (Cn s).
-Definition wA s v := mk (now s) (P s) (pend s) (flag s) (co s) (tmr s) (busy s) (closed s) v (Sb s) (nexts s) (T s) (nextt s) (Sel s) (Cn s).
-Definition wS s v := mk (now s) (P s) (pend s) (flag s) (co s) (tmr s) (busy s) (closed s) (A s) v (nexts s) (T s) (nextt s) (Sel s) (Cn s).
-Definition wnexts s v := mk (now s) (P s) (pend s) (flag s) (co s) (tmr s) (busy s) (closed s) (A s) (Sb s) v (T s) (nextt s) (Sel s) (Cn s).
-Definition wT s v := mk (now s) (P s) (pend s) (flag s) (co s) (tmr s) (busy s) (closed s) (A s) (Sb s) (nexts s) v (nextt s) (Sel s) (Cn s).
-Definition wnextt s v := mk (now s) (P s) (pend s) (flag s) (co s) (tmr s) (busy s) (closed s) (A s) (Sb s) (nexts s) (T s) v (Sel s) (Cn s).
-Definition wSel s v := mk (now s) (P s) (pend s) (flag s) (co s) (tmr s) (busy s) (closed s) (A s) (Sb s) (nexts s) (T s) (nextt s) v (Cn s).
-Definition wCn s v := mk (now s) (P s) (pend s) (flag s) (co s) (tmr s) (busy s) (closed s) (A s) (Sb s) (nexts s) (T s) (nextt s) (Sel s) v.
+     T := t; nextt := nt; Sel := se; Cn := cn; Kn := kn |}.
+Definition wnow s v := mk v (P s) (pend s) (flag s) (co s) (tmr s) (busy s) (closed s) (A s) (Sb s) (nexts s) (T s) (nextt s) (Sel s) (Cn s) (Kn s).
+Definition wP s v := mk (now s) v (pend s) (flag s) (co s) (tmr s) (busy s) (closed s) (A s) (Sb s) (nexts s) (T s) (nextt s) (Sel s) (Cn s) (Kn s).
+Definition wpend s v := mk (now s) (P s) v (flag s) (co s) (tmr s) (busy s) (closed s) (A s) (Sb s) (nexts s) (T s) (nextt s) (Sel s) (Cn s) (Kn s).
+Definition wflag s v := mk (now s) (P s) (pend s) v (co s) (tmr s) (busy s) (closed s) (A s) (Sb s) (nexts s) (T s) (nextt s) (Sel s) (Cn s) (Kn s).
+Definition wco s v := mk (now s) (P s) (pend s) (flag s) v (tmr s) (busy s) (closed s) (A s) (Sb s) (nexts s) (T s) (nextt s) (Sel s) (Cn s) (Kn s).
+Definition wtmr s v := mk (now s) (P s) (pend s) (flag s) (co s) v (busy s) (closed s) (A s) (Sb s) (nexts s) (T s) (nextt s) (Sel s) (Cn s) (Kn s).
+Definition wbusy s v := mk (now s) (P s) (pend s) (flag s) (co s) (tmr s) v (closed s) (A s) (Sb s) (nexts s) (T s) (nextt s) (Sel s) (Cn s) (Kn s).
+Definition wclosed s v := mk (now s) (P s) (pend s) (flag s) (co s) (tmr s) (busy s) v (A s) (Sb s) (nexts s) (T s) (nextt s) (Sel s) (Cn s) (Kn s).
+Definition wA s v := mk (now s) (P s) (pend s) (flag s) (co s) (tmr s) (busy s) (closed s) v (Sb s) (nexts s) (T s) (nextt s) (Sel s) (Cn s) (Kn s).
+Definition wS s v := mk (now s) (P s) (pend s) (flag s) (co s) (tmr s) (busy s) (closed s) (A s) v (nexts s) (T s) (nextt s) (Sel s) (Cn s) (Kn s).
+Definition wnexts s v := mk (now s) (P s) (pend s) (flag s) (co s) (tmr s) (busy s) (closed s) (A s) (Sb s) v (T s) (nextt s) (Sel s) (Cn s) (Kn s).
+Definition wT s v := mk (now s) (P s) (pend s) (flag s) (co s) (tmr s) (busy s) (closed s) (A s) (Sb s) (nexts s) v (nextt s) (Sel s) (Cn s) (Kn s).
+Definition wnextt s v := mk (now s) (P s) (pend s) (flag s) (co s) (tmr s) (busy s) (closed s) (A s) (Sb s) (nexts s) (T s) v (Sel s) (Cn s) (Kn s).
+Definition wSel s v := mk (now s) (P s) (pend s) (flag s) (co s) (tmr s) (busy s) (closed s) (A s) (Sb s) (nexts s) (T s) (nextt s) v (Cn s) (Kn s).
+Definition wCn s v := mk (now s) (P s) (pend s) (flag s) (co s) (tmr s) (busy s) (closed s) (A s) (Sb s) (nexts s) (T s) (nextt s) (Sel s) v (Kn s).
+Definition wKn s v := mk (now s) (P s) (pend s) (flag s) (co s) (tmr s) (busy s) (closed s) (A s) (Sb s) (nexts s) (T s) (nextt s) (Sel s) (Cn s) v.
 
 Section Model.
 Variable cap : nat.             (* K1: capacity of every pipe (elements) *)
@@ -175,13 +209,20 @@ Definition init : st :=
   mk 0 (fun _ => {| buf := []; wshut := false; sent := []; rcvd := []; eof := false |})
      (fun _ => false) (fun _ => false) (fun _ => None) (fun _ => None) (fun _ => None) (fun _ => false)
      (fun _ => idle_actor) (fun _ => {| spc_ := SDone; sa := 0; sfd := 0; sto := None; scn := false |}) 0
-     (fun _ => {| tstate := TFree; tdl := 0; tev := None; tmin := 0 |}) 0 (fun _ => SIdle) (fun _ => CnIdle).
+     (fun _ => {| tstate := TFree; tdl := 0; tev := None; tmin := 0 |}) 0 (fun _ => SIdle) (fun _ => CnIdle)
+     (fun _ => {| kq := []; kst := CNone; ktgt := 0; kdeliv := false; kest := []; kacc := [] |}).
 
 (* the pipe an operation of kind k on descriptor f works on, and the descriptor of its other end *)
-Definition pipe_of (k : kind) (f : nat) := match k with Rd => peer f | Wr => f end.
+Definition pipe_of (k : kind) (f : nat) := match k with Rd => peer f | _ => f end.
+
+(* K5: a connection of the connecting descriptor c enters the backlog of listener l; the readable edge *)
+Definition enqueue (kn : nat -> ksock) (l c : nat) := upd kn l (k_push (kn l) c).
+Definition q_edge (kn : nat -> ksock) (l : nat) : option nat := match kq (kn l) with [] => Some l | _ => None end.
 
 (* K2/K3: the non-blocking syscall of actor x (m = amount transferred).  None = EAGAIN *)
-Inductive sysres := SysDone (r : res) (p' : pipe) (ev : option nat) | SysAgain | SysBad.
+Inductive sysres := SysDone (r : res) (p' : pipe) (ev : option nat) | SysAgain | SysBad
+                  | SysK (r : res) (kn' : nat -> ksock) (ev : option nat)       (* accept / connect: done *)
+                  | SysAgainK (kn' : nat -> ksock).                             (* connect: EINPROGRESS, now in progress *)
 Definition syscall (s : st) (x : actor) (m : nat) : sysres :=
   let p := pipe_of (akind x) (afd x) in let q := P s p in
   match akind x with
@@ -203,6 +244,26 @@ Definition syscall (s : st) (x : actor) (m : nat) : sysres :=
                {| buf := buf q ++ firstn m (adat x); wshut := false; sent := sent q ++ firstn m (adat x); rcvd := rcvd q; eof := eof q |}
                (match buf q with [] => Some (peer p) | _ => None end)
            else SysBad
+  | Ac =>
+      match kq (Kn s (afd x)) with
+      | [] => SysAgain
+      | c :: q' => SysK (RAcc c) (upd (Kn s) (afd x) (k_pop (Kn s (afd x)) c q')) None
+      end
+  | Co =>
+      let f := afd x in let k := Kn s f in
+      match kst k with
+      | CNone =>
+          match m with
+          | 0 => SysAgainK (upd (Kn s) f (k_start k CProg (an x) false))
+          | 1 => let kn1 := upd (Kn s) f (k_start k CConn (an x) true) in
+                 SysK RConn (enqueue kn1 (an x) f) (q_edge kn1 (an x))
+          | S (S e) => SysK (RErr e) (Kn s) None
+          end
+      | CProg => SysAgain
+      | CEst => SysK RConn (upd (Kn s) f (k_st k CConn)) None
+      | CRef e => SysK (RErr e) (upd (Kn s) f (k_st k CNone)) None
+      | CConn => SysK RConn (Kn s) None
+      end
   end.
 
 Definition set_pend (s : st) (ev : option nat) := match ev with Some f => wpend s (upd (pend s) f true) | None => s end.
@@ -235,8 +296,8 @@ Definition step (s : st) (ac : action) : option st :=
       let x := A s a in
       match apc x, busy s f with
       | Idle, None =>
-          if closed s f || (match k with Rd => n =? 0 | Wr => match l with [] => true | _ => false end end) then None
-          else Some (wbusy (wA s (upd (A s) a (mkA PReset f k cn to l n (apara x) (acanc x) (acio x) (aawake x) (now s) (ahome x) (alast x))))
+          if closed s f || (match k with Rd => n =? 0 | Wr => match l with [] => true | _ => false end | _ => false end) then None
+          else Some (wbusy (wA s (upd (A s) a (mkA (match k with Co => PTry | _ => PReset end) f k cn to l n (apara x) (acanc x) (acio x) (aawake x) (now s) (ahome x) (alast x))))
                            (upd (busy s) f (Some a)))
       | _, _ => None
       end
@@ -248,6 +309,8 @@ Definition step (s : st) (ac : action) : option st :=
           match syscall s x m with
           | SysDone r p' ev => Some (set_pend (wP (finish s a r) (upd (P s) (pipe_of (akind x) (afd x)) p')) ev)
           | SysAgain => Some (wA s (upd (A s) a (a_pc x PYield)))
+          | SysK r kn' ev => Some (set_pend (wKn (finish s a r) kn') ev)
+          | SysAgainK kn' => Some (wKn (wA s (upd (A s) a (a_pc x PYield))) kn')
           | SysBad => None
           end
       | PYield =>
@@ -265,6 +328,8 @@ Definition step (s : st) (ac : action) : option st :=
           match syscall s x m with
           | SysDone r p' ev => Some (set_pend (wP (finish s a r) (upd (P s) (pipe_of (akind x) (afd x)) p')) ev)
           | SysAgain => Some (wA s (upd (A s) a (a_pc x LChk)))
+          | SysK r kn' ev => Some (set_pend (wKn (finish s a r) kn') ev)
+          | SysAgainK kn' => Some (wKn (wA s (upd (A s) a (a_pc x LChk))) kn')
           | SysBad => None
           end
       | LChk => Some (wA s (upd (A s) a (a_pc x (if flag s (afd x) then LRes else PYield))))
@@ -416,6 +481,21 @@ Definition step (s : st) (ac : action) : option st :=
       | None => if closed s f then None else Some (wclosed (disarm s f false) (upd (closed s) f true))
       | Some _ => None
       end
+  | Establish f =>
+      match kst (Kn s f) with
+      | CProg => Some (wpend (wKn s (upd (Kn s) f (k_st (Kn s f) CEst))) (upd (pend s) f true))
+      | _ => None
+      end
+  | Refuse f e =>
+      match kst (Kn s f) with
+      | CProg => Some (wpend (wKn s (upd (Kn s) f (k_st (Kn s f) (CRef e)))) (upd (pend s) f true))
+      | _ => None
+      end
+  | Deliver f =>
+      if negb (kdeliv (Kn s f)) && (match kst (Kn s f) with CEst | CConn => true | _ => false end) then
+        let kn1 := upd (Kn s) f (k_deliv (Kn s f)) in
+        Some (set_pend (wKn s (enqueue kn1 (ktgt (Kn s f)) f)) (q_edge kn1 (ktgt (Kn s f))))
+      else None
   end.
 
 Inductive Reach : st -> Prop :=
@@ -427,12 +507,15 @@ Fixpoint run (s : st) (l : list action) : option st :=
 
 (* ---- notions used by the theorems ------------------------------------------------------------------------ *)
 
-(* the wake condition of a caller: the kernel has data (or end of stream) for a reader, space for a writer *)
+(* the wake condition of a caller: the kernel has data (or end of stream) for a reader, space for a writer, a connection
+   in the backlog for an acceptor, the outcome of the attempt (established / failed) for a connector *)
 Definition avail (s : st) (x : actor) : Prop :=
   let q := P s (pipe_of (akind x) (afd x)) in
   match akind x with
   | Rd => buf q <> [] \/ wshut q = true
   | Wr => length (buf q) < cap
+  | Ac => kq (Kn s (afd x)) <> []
+  | Co => kst (Kn s (afd x)) = CEst \/ exists e, kst (Kn s (afd x)) = CRef e
   end.
 
 (* nobody has an enabled internal step: everyone is outside an operation or suspended *)
